@@ -34,14 +34,14 @@ ToSet(seq) == {seq[i] : i \in DOMAIN seq}
 \* with VIP_DEBUG=1 the first failing comparison of a rejected line is printed
 Debug == "VIP_DEBUG" \in DOMAIN IOEnv /\ IOEnv.VIP_DEBUG = "1"
 Chk(label, cond) == IF cond THEN TRUE ELSE (Debug => PrintT(<<"MISMATCH at line", l, label>>)) /\ FALSE
-AllAspects == {"nodes", "peers", "ledger", "total", "links", "stats", "hosts", "nonce", "time",
+AllAspects == {"nodes", "peers", "ledger", "total", "links", "stats", "hosts", "nonce", "noncefull", "time",
                "auth", "billing", "lowbal", "refused", "withdraw", "sel", "reg", "uri", "exact"}
 Aspects == CASE Focus = "all"    -> AllAspects
              [] Focus = "nonce"  -> {"nonce"}
              [] Focus = "peers"  -> {"peers"}
              [] Focus = "ledger" -> {"ledger", "total"}
              [] Focus = "C01"    -> {"total"}
-             [] Focus = "C02"    -> {"ledger", "billing"}
+             [] Focus = "C02"    -> {"billing"}
              [] Focus = "C03"    -> {"lowbal"}
              [] Focus = "C04"    -> {"auth"}
              [] Focus = "C05"    -> {"nonce"}
@@ -169,10 +169,14 @@ StoreStep(ln) ==
          /\ Chk("links@StoreTrace:165", F("links") => r.ok /\ ToSet(r.val) = e.res.val)
          /\ Finish(S, ln)
     [] ln.op = "Nonce" ->
-         LET e == CheckAndSaveNonceF(S, a.ident, a.v, r.ok) IN
-         /\ Chk("nonce@StoreTrace:169", F("nonce") => NonceDecisionOK(S, a.ident, a.v, r.ok) /\ SameRes(r, e.res))
-         /\ Finish(IF F("nonce") THEN e.st
-                   ELSE IF NonceDecisionOK(S, a.ident, a.v, r.ok) THEN e.st ELSE S, ln)
+         \* C05 proper: accepted only if above every accepted nonce of the identity and fresh;
+         \* the converse (a fresh, higher nonce is accepted) belongs to the store contract (C12)
+         LET legal == NonceDecisionOK(S, a.ident, a.v, r.ok)
+             e == CheckAndSaveNonceF(S, a.ident, a.v, r.ok) IN
+         /\ Chk("nonce accepted although not above the last accepted / not fresh",
+                F("nonce") => (r.ok => NonceHigher(S, a.ident, a.v) /\ ~NonceMustStale(S, a.v)))
+         /\ Chk("nonce decision", F("noncefull") => legal /\ SameRes(r, e.res))
+         /\ Finish(e.st, ln)
     [] ln.op = "Stats" ->
          /\ Chk("stats@StoreTrace:173", F("stats") => r.ok /\ StatsOK(S, r.val))
          /\ Finish(S, ln)
